@@ -221,7 +221,7 @@ var patternKinds = func() map[string]bool {
 }()
 
 type patStats struct {
-	Pairs, Skipped, PairsWithMatch, Matches, BrutePanics int
+	Pairs, Skipped, PairsWithMatch, Matches, BrutePanics, BothPanicked int
 	PrunedBySymbols, ByCallSites, ByEntryNodes           int
 }
 
@@ -250,7 +250,13 @@ var PatMon = &analysis.Analyzer{
 						listNodes = append(listNodes, n)
 						return true
 					case *ast.ParenExpr, *ast.ExprStmt, *ast.DeclStmt, *ast.LabeledStmt:
-						nodes = append(nodes, n)
+						// a wrapper around a block (`label: { ... }`) stands for the list, like the block itself
+						switch unwrap(n).(type) {
+						case *ast.BlockStmt, *ast.FieldList:
+							listNodes = append(listNodes, n)
+						default:
+							nodes = append(nodes, n)
+						}
 						return true
 					}
 					if patternKinds[strings.TrimPrefix(fmt.Sprintf("%T", n), "*ast.")] {
@@ -275,6 +281,8 @@ var PatMon = &analysis.Analyzer{
 			}
 			st.Pairs++
 			want := map[string]bool{}
+			wantNode := map[string]ast.Node{}
+			brutePanicsBefore := st.BrutePanics
 			tryNodes := nodes
 			for _, en := range q.EntryNodes {
 				switch en.(type) {
@@ -291,7 +299,9 @@ var PatMon = &analysis.Analyzer{
 					}()
 					if m, ok := code.Match(pass, q, n); ok {
 						u := unwrap(n)
-						want[fmt.Sprintf("%T@%d-%d|%s", u, u.Pos(), u.End(), renderState(m.State))] = true
+						k := fmt.Sprintf("%T@%d-%d|%s", u, u.Pos(), u.End(), renderState(m.State))
+						want[k] = true
+						wantNode[k] = u
 					}
 				}()
 			}
@@ -308,6 +318,12 @@ var PatMon = &analysis.Analyzer{
 					got[fmt.Sprintf("%T@%d-%d|%s", u, u.Pos(), u.End(), renderState(m.State))] = true
 				}
 			}()
+			if panicked != "" && st.BrutePanics > brutePanicsBefore {
+				// the plain matcher panics on some node of this package for this pattern as well: what
+				// "matches" is not defined for the pair (pattern-author error or matcher robustness, C09)
+				st.BothPanicked++
+				continue
+			}
 			if panicked != "" {
 				pass.Report(analysis.Diagnostic{Pos: at.Pos(), Message: fmt.Sprintf("patmon panic id=%s: %s", pc.spec.ID, panicked)})
 				continue
@@ -350,7 +366,24 @@ var PatMon = &analysis.Analyzer{
 					fmt.Sscanf(missing[0][strings.IndexByte(missing[0], '@')+1:], "%d", &p)
 					first = pass.Fset.Position(p).String()
 				}
-				b, _ := json.Marshal(map[string]any{"id": pc.spec.ID, "pattern": pc.spec.Text, "filter": how, "missing": len(missing), "extra": len(extra), "first_missing_at": first, "first_missing": firstOf(missing), "first_extra": firstOf(extra)})
+				// are all missing matches identifiers that denote an ALIAS of a type (the matcher looks through
+				// aliases, the symbol index knows only what the package refers to by its own name)?
+				viaAlias := len(missing) > 0
+				for _, k := range missing {
+					var id *ast.Ident
+					switch n := wantNode[k].(type) {
+					case *ast.Ident:
+						id = n
+					case *ast.SelectorExpr:
+						id = n.Sel
+					}
+					tn, _ := pass.TypesInfo.ObjectOf(id).(*types.TypeName)
+					if id == nil || tn == nil || !tn.IsAlias() {
+						viaAlias = false
+						break
+					}
+				}
+				b, _ := json.Marshal(map[string]any{"id": pc.spec.ID, "pattern": pc.spec.Text, "filter": how, "missing": len(missing), "extra": len(extra), "first_missing_at": first, "first_missing": firstOf(missing), "first_extra": firstOf(extra), "all_missing_are_alias_type_names": viaAlias})
 				pass.Report(analysis.Diagnostic{Pos: at.Pos(), Message: "patmon mismatch " + string(b)})
 			}
 		}
